@@ -62,6 +62,22 @@ func mustBits(c *kit.Ctx, v ssa.Value, depth int) int64 {
 		return mustBits(c, x.X, depth+1)
 	case *ssa.ChangeType:
 		return mustBits(c, x.X, depth+1)
+	case *ssa.Parameter:
+		// the flag word is computed by the caller and handed to a helper: the
+		// bits certainly set are those set in the argument at every static call
+		// site (none if the helper's callers cannot be enumerated)
+		args, ok := c.ArgsOfParam(x)
+		if !ok {
+			return 0
+		}
+		r := int64(-1)
+		for _, a := range args {
+			r &= mustBits(c, a, depth+2)
+		}
+		if r == -1 {
+			return 0
+		}
+		return r
 	case *ssa.Call:
 		fn := x.Call.StaticCallee()
 		if fn == nil || fn.Blocks == nil || !kit.InModule(pkgOf(fn)) {
@@ -165,32 +181,24 @@ func runC05(c *kit.Ctx) {
 		fHashOK := c.Field("internal/piecewriter", "PieceWriter", "HashOK")
 		fError := c.Field("internal/piecewriter", "PieceWriter", "Error")
 		pieceWrite := c.FuncObj("internal/filesection", "Piece.Write")
-		done := (&kit.Flow{P: c.Prog, Fn: run,
+		// "Piece.Write has returned, or HashOK is false": keyed on the callee object
+		// and the field, so the write and the delivery may each sit in a helper of
+		// Run (callee summaries + a walk from Run in Run's own context)
+		done := &kit.Spec{P: c.Prog, Deep: kit.DefaultDeep,
 			Edge: func(a kit.Atom) bool { return a.IsFalse(func(e *kit.Expr) bool { return e.IsField(fHashOK) }) },
 			Instr: func(ins ssa.Instruction, in bool) bool {
 				if kit.CallsAny(ins, pieceWrite) {
 					return true
 				}
 				return in
-			}}).Solve()
+			}}
 		n := 0
-		kit.Instrs(run, func(ins ssa.Instruction) {
-			var sends bool
-			switch x := ins.(type) {
-			case *ssa.Send:
-				sends = x.X == ssa.Value(run.Params[0]) || true
-			case *ssa.Select:
-				for _, st := range x.States {
-					if st.Dir == types.SendOnly {
-						sends = true
-					}
-				}
-			}
-			if !sends {
+		done.VisitDown(run, false, 2, func(ins ssa.Instruction, before bool) {
+			if !isResultDelivery(c, ins) {
 				return
 			}
 			n++
-			c.Check(done.Before(ins), "R05.2", k.key(run, "deliver result"), posOf(ins),
+			c.Check(before, "R05.2", k.key(ins.Parent(), "deliver result"), posOf(ins),
 				"result delivered only after Piece.Write returned (or HashOK==false)", "writer can deliver its result before the file write has returned")
 		})
 		c.Floor("R05.2", "result deliveries in PieceWriter.Run", n, 1)
@@ -202,12 +210,14 @@ func runC05(c *kit.Ctx) {
 			c.Check(ok, "R05.2", k.key(st.Fn, "store PieceWriter.Error"), posOf(st.Store),
 				"Error is the error result of Piece.Write", "PieceWriter.Error assigned from "+v.String()+", not from Piece.Write's error: a failed write could look successful")
 		}
-		// every Piece.Write in Run has its error stored into w.Error
-		kit.Instrs(run, func(ins ssa.Instruction) {
-			call, ok := ins.(*ssa.Call)
-			if !ok || !kit.CallsAny(ins, pieceWrite) {
-				return
+		// every Piece.Write (wherever the writer calls it) has its error stored into w.Error
+		nw := 0
+		for _, s := range sortSites(c.CallSites(pieceWrite)) {
+			call, ok := s.Instr.(*ssa.Call)
+			if !ok || s.Fn.Synthetic != "" {
+				continue
 			}
+			nw++
 			stored := false
 			for _, r := range *call.Referrers() {
 				ex, ok := r.(*ssa.Extract)
@@ -222,9 +232,10 @@ func runC05(c *kit.Ctx) {
 					}
 				}
 			}
-			c.Check(stored, "R05.2", k.key(run, "write error kept"), posOf(ins),
+			c.Check(stored, "R05.2", k.key(s.Fn, "write error kept"), posOf(call),
 				"the error of Piece.Write is stored into PieceWriter.Error", "the error result of Piece.Write is dropped: a failed write would be reported as success and its bit set and persisted")
-		})
+		}
+		c.Floor("R05.2", "calls of filesection.Piece.Write", nw, 1)
 	}
 
 	// ---- R05.7 a failed section write is never masked by a later one, nor filtered by the writer
@@ -240,8 +251,13 @@ func runC05(c *kit.Ctx) {
 		fSpecBF := c.Field("internal/resumer/boltdbresumer", "Spec", "Bitfield")
 		keysVar := c.Global("internal/resumer/boltdbresumer", "Keys")
 		writeBFfn := c.Func("internal/resumer/boltdbresumer", "(*Resumer).WriteBitfield")
-		fromTorrent := func(e *kit.Expr) bool {
+		fromTorrentE := func(e *kit.Expr) bool {
 			return e.IsCallTo(bfBytes) && e.Args[0].IsField(fTBitfield)
+		}
+		// the persisted value is Bytes() of the torrent bitfield, directly or as
+		// the argument bound to a helper's parameter at every call site
+		fromTorrentV := func(v ssa.Value) bool {
+			return c.HoldsForValue(v, 2, func(x ssa.Value) bool { return fromTorrentE(kit.Canon(x)) })
 		}
 		isBitfieldKey := func(e *kit.Expr) bool {
 			e = e.Strip()
@@ -257,7 +273,7 @@ func runC05(c *kit.Ctx) {
 		for _, s := range sortSites(c.CallSites(writeBF)) {
 			n++
 			v := kit.Canon(argOf(s.Instr.Common(), 2))
-			c.Check(fromTorrent(v), "R05.3", k.key(s.Fn, "WriteBitfield"), posOf(s.Instr),
+			c.Check(fromTorrentV(argOf(s.Instr.Common(), 2)), "R05.3", k.key(s.Fn, "WriteBitfield"), posOf(s.Instr),
 				"persists "+v.String(), "WriteBitfield persists "+v.String()+", which is not Bytes() of the in-memory torrent bitfield")
 		}
 		for _, s := range sortSites(c.CallSites(put)) {
@@ -268,7 +284,7 @@ func runC05(c *kit.Ctx) {
 			key := k.key(s.Fn, "Put bitfield key")
 			v := kit.Canon(argOf(s.Instr.Common(), 2))
 			switch {
-			case fromTorrent(v):
+			case fromTorrentV(argOf(s.Instr.Common(), 2)):
 				c.OK("R05.3", key, posOf(s.Instr), "persists %s", v)
 			case v.IsField(fSpecBF) && inPkg(s.Fn, c, "internal/resumer/boltdbresumer"):
 				c.OK("R05.3", key, posOf(s.Instr), "persists Spec.Bitfield (whose initialisers are checked)")
@@ -284,7 +300,7 @@ func runC05(c *kit.Ctx) {
 			}
 			n++
 			v := kit.Canon(st.Val)
-			c.Check(fromTorrent(v), "R05.3", k.key(st.Fn, "init Spec.Bitfield"), posOf(st.Store),
+			c.Check(fromTorrentV(st.Val), "R05.3", k.key(st.Fn, "init Spec.Bitfield"), posOf(st.Store),
 				"Spec.Bitfield = "+v.String(), "Spec.Bitfield initialised from "+v.String()+", not from the in-memory torrent bitfield")
 		}
 		c.Floor("R05.3", "bitfield persistence sites", n, 4)
@@ -298,69 +314,89 @@ func runC05(c *kit.Ctx) {
 		fHasExisting := c.Field("internal/allocator", "Allocator", "HasExisting")
 		fAErr := c.Field("internal/allocator", "Allocator", "Error")
 		fTBitfield := c.Field("torrent", "torrent", "bitfield")
-		noMissing := c.FieldBool(h, fHasMissing, false)
-		noExisting := c.FieldBool(h, fHasExisting, false)
-		haveBF := c.FieldNil(h, fTBitfield, false)
-		n := 0
-		kit.Instrs(h, func(ins ssa.Instruction) {
+		// The three facts are field-keyed; they are evaluated on a walk from the
+		// handler through its helpers in the handler's calling context, so the
+		// trusted-resume loop or the start calls may be moved into helpers.
+		noMissing := c.FieldBoolSpec(fHasMissing, false, kit.DefaultDeep)
+		noExisting := c.FieldBoolSpec(fHasExisting, false, kit.DefaultDeep)
+		haveBF := c.FieldNilSpec(fTBitfield, false, kit.DefaultDeep)
+		starts := []*types.Func{c.FuncObj("torrent", "(*torrent).startPieceDownloaders"), c.FuncObj("torrent", "(*torrent).startAnnouncers"), c.FuncObj("torrent", "(*torrent).startAcceptor")}
+		n, ns := 0, 0
+		// (every module callee is entered, in the handler's context: a filter
+		// "helpers of the handler only" would miss a start helper shared with
+		// the verification-done handler, e.g. startNetworking())
+		for _, vis := range kit.VisitDownAll(h, 2, nil, noMissing, noExisting, haveBF) {
+			ins := vis.Ins
 			if v, ok := kit.StoresField(ins, fDone); ok && !kit.Canon(v).IsConstBool(false) {
 				n++
-				c.Check(noMissing.Before(ins), "R05.4", k.key(h, "trust resume bit"), posOf(ins),
+				c.Check(vis.Facts[0], "R05.4", k.key(ins.Parent(), "trust resume bit"), posOf(ins),
 					"resume bits copied into Piece.Done only under al.HasMissing==false", "resume bitfield trusted although a file may be missing")
 			}
-		})
-		c.Floor("R05.4", "trusted-resume stores", n, 1)
-		starts := []*types.Func{c.FuncObj("torrent", "(*torrent).startPieceDownloaders"), c.FuncObj("torrent", "(*torrent).startAnnouncers"), c.FuncObj("torrent", "(*torrent).startAcceptor")}
-		ns := 0
-		kit.Instrs(h, func(ins ssa.Instruction) {
-			if !kit.CallsAny(ins, starts...) {
-				return
-			}
-			ns++
-			ok := (noMissing.Before(ins) && haveBF.Before(ins)) || noExisting.Before(ins)
-			c.Check(ok, "R05.4", k.key(h, "start without verify"), posOf(ins),
-				"transfer starts without verification only if (bitfield!=nil && !HasMissing) or !HasExisting", "transfer can start without verification although existing files were found and the resume bitfield is not trusted")
-		})
-		c.Floor("R05.4", "start calls in handleAllocationDone", ns, 6)
-		// allocator: Open that reports !exists is followed by HasMissing=true
-		run := c.Func("internal/allocator", "(*Allocator).Run")
-		stoOpen := c.FuncObj("internal/storage", "Storage.Open")
-		var openCalls []ssa.Instruction
-		fl := (&kit.Flow{P: c.Prog, Fn: run, Entry: true,
-			Edge: func(a kit.Atom) bool {
-				if a.IsTrue(func(e *kit.Expr) bool { return e.Kind == "extract" && e.Idx == 1 && e.Args[0].IsCallTo(stoOpen) }) {
-					return true
-				}
-				return a.IsNilCmp(false, func(e *kit.Expr) bool { return e.IsField(fAErr) })
-			},
-			Instr: func(ins ssa.Instruction, in bool) bool {
-				if kit.CallsAny(ins, stoOpen) {
-					return false
-				}
-				if v, ok := kit.StoresField(ins, fHasMissing); ok {
-					return kit.Canon(v).IsConstBool(true)
-				}
-				return in
-			}}).Solve()
-		kit.Instrs(run, func(ins ssa.Instruction) {
-			if kit.CallsAny(ins, stoOpen) {
-				openCalls = append(openCalls, ins)
-			}
-		})
-		okAll := len(fl.FailingReturns()) == 0
-		for _, oc := range openCalls {
-			if !fl.Before(oc) {
-				okAll = false
+			if kit.CallsAny(ins, starts...) {
+				ns++
+				ok := (vis.Facts[0] && vis.Facts[2]) || vis.Facts[1]
+				c.Check(ok, "R05.4", k.key(ins.Parent(), "start without verify"), posOf(ins),
+					"transfer starts without verification only if (bitfield!=nil && !HasMissing) or !HasExisting", "transfer can start without verification although existing files were found and the resume bitfield is not trusted")
 			}
 		}
-		c.Check(okAll && len(openCalls) > 0, "R05.4", kit.FuncName(run)+"/missing-marked", run.Pos(),
+		c.Floor("R05.4", "trusted-resume stores", n, 1)
+		c.Floor("R05.4", "start calls in handleAllocationDone", ns, 6)
+		// allocator: Open that reports !exists is followed by HasMissing=true.
+		// "no unrecorded missing file is pending" (entry true): opened by a
+		// Storage.Open call, closed by exists==true / Error!=nil / HasMissing=true.
+		// Checked in every function of the allocator that calls Storage.Open
+		// (each must discharge before its next Open and before it returns) and,
+		// with callee summaries, in Allocator.Run.
+		run := c.Func("internal/allocator", "(*Allocator).Run")
+		stoOpen := c.FuncObj("internal/storage", "Storage.Open")
+		missingFlow := func(fn *ssa.Function) *kit.Flow {
+			return (&kit.Flow{P: c.Prog, Fn: fn, Entry: true,
+				Edge: func(a kit.Atom) bool {
+					if a.IsTrue(func(e *kit.Expr) bool { return e.Kind == "extract" && e.Idx == 1 && e.Args[0].IsCallTo(stoOpen) }) {
+						return true
+					}
+					return a.IsNilCmp(false, func(e *kit.Expr) bool { return e.IsField(fAErr) })
+				},
+				Instr: func(ins ssa.Instruction, in bool) bool {
+					if kit.CallsAny(ins, stoOpen) {
+						return false
+					}
+					if v, ok := kit.StoresField(ins, fHasMissing); ok {
+						return kit.Canon(v).IsConstBool(true)
+					}
+					return in
+				}}).WithDeep(kit.DefaultDeep, nil).Solve()
+		}
+		nOpen := 0
+		okAll := len(missingFlow(run).FailingReturns()) == 0
+		seenFn := map[*ssa.Function]bool{}
+		for _, s := range sortSites(c.CallSites(stoOpen)) {
+			if _, isCall := s.Instr.(*ssa.Call); !isCall {
+				continue
+			}
+			nOpen++
+			fl := missingFlow(s.Fn)
+			if !fl.Before(s.Instr) {
+				okAll = false
+			}
+			if !seenFn[s.Fn] {
+				seenFn[s.Fn] = true
+				if len(fl.FailingReturns()) != 0 {
+					okAll = false
+				}
+				if !c.OnlyReachedVia(s.Fn, 3, run) {
+					c.Bad("R05.4", k.key(s.Fn, "Storage.Open outside the allocator"), posOf(s.Instr), "Storage.Open called from %s, which is not (only) reached through Allocator.Run: existence of the file is not recorded in HasMissing / HasExisting", kit.FuncName(s.Fn))
+				}
+			}
+		}
+		c.Check(okAll && nOpen > 0, "R05.4", kit.FuncName(run)+"/missing-marked", run.Pos(),
 			"after every Storage.Open: exists==true, or Error!=nil, or HasMissing=true before the next Open / return", "a file reported as not existing can go unrecorded (HasMissing not set): its resume bits would be trusted")
-		c.Floor("R05.4", "Storage.Open calls in Allocator.Run", len(openCalls), 1)
+		c.Floor("R05.4", "Storage.Open calls", nOpen, 1)
 		for _, st := range fieldStores(c, fHasMissing) {
-			if st.Fn != run {
-				c.Bad("R05.4", k.key(st.Fn, "store HasMissing"), posOf(st.Store), "HasMissing written outside Allocator.Run")
+			if !inPkg(st.Fn, c, "internal/allocator") {
+				c.Bad("R05.4", k.key(st.Fn, "store HasMissing"), posOf(st.Store), "HasMissing written outside package allocator")
 			} else if !kit.Canon(st.Val).IsConstBool(true) {
-				c.Bad("R05.4", k.key(st.Fn, "store HasMissing"), posOf(st.Store), "HasMissing reset inside Allocator.Run")
+				c.Bad("R05.4", k.key(st.Fn, "store HasMissing"), posOf(st.Store), "HasMissing reset inside the allocator")
 			}
 		}
 	}
@@ -393,7 +429,7 @@ func runC05(c *kit.Ctx) {
 				}
 			}
 			return in
-		}}).Solve()
+		}}).WithDeep(kit.DefaultDeep, nil).Solve()
 		n := 0
 		kit.Instrs(v, func(ins ssa.Instruction) {
 			if kit.CallsAny(ins, tVerify) {
